@@ -228,7 +228,9 @@ def s4(chk: Check, proj: Project, w) -> None:
         chk.ob("S4", f"perfutil.component:component_post_render:queue-only-for-root:{short(ls, 40)}", m.loc(ls), ok, "the queue loop runs only when parent_id is None" if ok else "the queue loop can run for a nested component: composition becomes recursive (depth grows with nesting)")
     r = proj.try_func("component", "Component._render_with_id") or proj.try_func("component", "Component._render_impl")
     mm, ff = r  # type: ignore[misc]
-    asg = assignments(ff, "parent_id")
+    cpr = calls(ff, "component_post_render")
+    pidv = norm(kwarg(cpr[0], "parent_id")) if cpr and kwarg(cpr[0], "parent_id") is not None else "parent_id"
+    asg = assignments(ff, pidv)
     ok = len(asg) == 2
     if ok:
         conds = [cond_atoms(st) for st, _ in asg]
